@@ -515,6 +515,19 @@ ODD = [
      + OT.replace('INTEGER', 'T0') % 'DEFVAL { 1 }'),
     ('deep-oid-chain', 'n0 OBJECT IDENTIFIER ::= { enterprises 5 }\n'
      + ''.join('n%d OBJECT IDENTIFIER ::= { n%d 1 }\n' % (i + 1, i) for i in range(100))),
+    # chains longer than the interpreter's stack is deep
+    ('deep-alias-chain-of-1500', ''.join('T%d ::= T%d\n' % (i, i + 1) for i in range(1500)) + 'T1500 ::= INTEGER\n'
+     + OT.replace('INTEGER', 'T0') % 'DEFVAL { 1 }'),
+    ('deep-oid-chain-of-1500', 'n0 OBJECT IDENTIFIER ::= { enterprises 5 }\n'
+     + ''.join('n%d OBJECT IDENTIFIER ::= { n%d 1 }\n' % (i + 1, i) for i in range(1500))),
+    # an object whose SYNTAX is an in-line SEQUENCE (the grammar takes a row type there)
+    ('inline-sequence-syntax', 'r OBJECT-TYPE SYNTAX SEQUENCE { c INTEGER } MAX-ACCESS not-accessible STATUS current DESCRIPTION "d" '
+                               '::= { enterprises 8 }\n'),
+    ('inline-sequence-syntax-with-index', 'r OBJECT-TYPE SYNTAX SEQUENCE { c INTEGER, d OCTET STRING } MAX-ACCESS not-accessible '
+                                          'STATUS current DESCRIPTION "d" INDEX { c } ::= { enterprises 8 }\n'),
+    # a plain name after the first sub-identifier: refused, or resolved to its own arc - never expanded to a whole OID
+    ('names-after-the-first-sub-identifier', 'myorg OBJECT IDENTIFIER ::= { iso 3 }\nmydod OBJECT IDENTIFIER ::= { myorg 6 }\n'
+                                             'b OBJECT IDENTIFIER ::= { iso myorg mydod 9 }\n'),
 ]
 CROSS = {
     'type-cycle-across-modules': {
@@ -570,6 +583,11 @@ class SemanticOddities(object):
         for m in req:
             if str(res.get(m)) not in H.STATUSES:
                 vs.append(('%s|module-without-status' % sig, '%s: %r in %r' % (m, res.get(m), dict(res))))
+        if label == 'names-after-the-first-sub-identifier' and res.get('A') == 'compiled':
+            ok = case['backend'] == 'json' and '"1.3.6.9"' in written.get('A', '') or \
+                case['backend'] == 'pysnmp' and '(1, 3, 6, 9)' in written.get('A', '')
+            if not ok:
+                vs.append(('%s|compiled-with-another-oid' % sig, written.get('A', '')[-700:]))
         if label.startswith('deep-') and res.get('A') != 'compiled':
             vs.append(('%s|legal-chain-not-compiled' % sig, '%r %r' % (res.get('A'), getattr(res.get('A'), 'error', None))))
         good = str(res.get('GOOD'))
